@@ -34,6 +34,7 @@ import (
 	"github.com/cnotch/ipchub/av/format/rtsp"
 	srv "github.com/cnotch/ipchub/service/rtsp"
 	"github.com/cnotch/xlog"
+	gws "github.com/gorilla/websocket"
 )
 
 func main() { Main("C14", run) }
@@ -222,6 +223,14 @@ func errKind(err error) string {
 	}
 	if err == io.ErrUnexpectedEOF {
 		return "ueof"
+	}
+	if _, ok := err.(*gws.CloseError); ok {
+		return "ws-closed" // the end of a stream that travels over the WebSocket transport
+	}
+	if err == io.ErrClosedPipe {
+		// the same end, seen by the server while it answers the client's last ping: the client
+		// (the other end of the pipe) has dropped the connection
+		return "ws-closed"
 	}
 	if ue, ok := err.(*url.Error); ok {
 		lastBadURLMu.Lock()
@@ -1353,6 +1362,11 @@ type rcase struct {
 	witems   []int // indices into the w-op list
 	implOnly bool  // oracle probe: not sent to the model (the op line is a dummy)
 	extraURL map[string]bool
+	// filled by the readers loop, used by the WebSocket phase (ws.go)
+	want        []string // the specification's expected renderings when every item of the stream is valid
+	tcpAgrees   bool     // reader over the chunked TCP-like delivery = model, no oracle finding
+	wsPlans     []wsPlan // corpus / replay: deliveries through the WebSocket transport to run
+	validReplay bool     // corpus / replay ws case whose stream the model reads as whole items up to a clean end
 }
 
 // run: the cases are generated, driven and compared round by round (one round = the quick
@@ -1385,6 +1399,16 @@ func runRound(c *Ctx, round int) {
 		if len(f) < 2 || f[0] != "c14" || round > 0 {
 			continue
 		}
+		var plans []wsPlan
+		if f[1] == "ws" && len(f) >= 5 { // c14 ws <plan> <an ordinary read / recv op>
+			p, ok := parseWsPlan(f[2])
+			if !ok {
+				continue
+			}
+			plans = []wsPlan{p}
+			f = append([]string{"c14"}, f[3:]...)
+		}
+		ncases := len(cases)
 		switch {
 		case f[1] == "conc" && len(f) == 5:
 			gate, _ := strconv.Atoi(f[2])
@@ -1416,6 +1440,9 @@ func runRound(c *Ctx, round int) {
 			case "pkt":
 				cases = append(cases, rcase{kind: "read-pkt", d: parseDelivery(f[3]), chans: parseIntsCSV(f[4]), stream: Unhx(f[5]), restWant: -1, tag: "corpus"})
 			}
+		}
+		if plans != nil && len(cases) == ncases+1 {
+			cases[ncases].wsPlans = plans
 		}
 	}
 
@@ -1728,6 +1755,10 @@ func runRound(c *Ctx, round int) {
 		}
 		// ---------------- specification oracle
 		panicked := strings.Contains(implText, "panic")
+		k.tcpAgrees = !k.implOnly && cmpImpl == cmpModel && !panicked
+		if len(k.wsPlans) > 0 && k.tcpAgrees {
+			k.validReplay = (strings.HasPrefix(model, "events=") && !strings.HasPrefix(model, "events=- ") && strings.HasSuffix(model, "err=eof")) || strings.HasPrefix(model, "ok=")
+		}
 		if panicked {
 			c.Find(Finding{Kind: "oracle", Class: panicClass(k), Case: k.line, Impl: "panic: " + trunc(ro.rend, 120), Spec: "an error, never a panic", Detail: k.tag})
 		}
@@ -1745,6 +1776,7 @@ func runRound(c *Ctx, round int) {
 			}
 			if allValid && k.tag != "stream+garbage" {
 				c.Count("roundtrip-oracle-" + k.kind)
+				k.want = want
 				switch k.kind {
 				case "recv":
 					got := make([]string, len(implEvents))
@@ -1752,12 +1784,15 @@ func runRound(c *Ctx, round int) {
 						got[j] = stripPktOffset(e)
 					}
 					if strings.Join(got, "/") != strings.Join(want, "/") || implErr != "eof" {
+						k.tcpAgrees = false
 						c.Find(Finding{Kind: "oracle", Class: "stream-sequence", Case: k.line, Impl: trunc(implText, 300), Spec: trunc("events="+strings.Join(want, "/")+" err=eof", 300), Detail: k.tag})
 					}
 				default:
 					if !ro.ok || stripPktOffset(ro.rend) != want[0] {
+						k.tcpAgrees = false
 						c.Find(Finding{Kind: "oracle", Class: "roundtrip-" + k.kind, Case: k.line, Impl: trunc(implText, 300), Spec: trunc(want[0], 300), Detail: k.tag + " " + items[k.witems[0]].detail})
 					} else if ro.rest != k.restWant {
+						k.tcpAgrees = false
 						c.Find(Finding{Kind: "oracle", Class: "position-after-" + k.kind, Case: k.line, Impl: fmt.Sprintf("rest=%d", ro.rest), Spec: fmt.Sprintf("rest=%d", k.restWant), Detail: k.tag})
 					}
 				}
@@ -1782,6 +1817,8 @@ func runRound(c *Ctx, round int) {
 			c.Find(Finding{Kind: "oracle", Class: "truncated-body-accepted", Case: k.line, Impl: trunc(implText, 200), Spec: "error: the stream ends inside the announced body", Detail: k.tag})
 		}
 	}
+	// ---- the same streams through the other kind of connection: the WebSocket transport (ws.go)
+	runWsPhase(c, cases, items)
 }
 
 func caseLine(k *rcase, _ []string) string {
